@@ -1001,12 +1001,13 @@ def imported_name_resolve(run):
     core.explore(lambda: None, lambda p, out: go(p))
 
 
-@harness(['C07'], 'supp.project.Project.list_packages', bounded='directory trees: 2 source roots x every subset of 7 entry kinds (module, package, plain directory, '
+@harness(['C07'], 'supp.project.Project.list_packages', bounded='directory trees: 2 source roots (the later one holding a plain directory or a package of the same name) x every subset of 7 entry kinds (module, package, plain directory, '
          'compiled-suffix file, __init__.py, non-python file, files / packages whose name is not an identifier) in the listed directory')
 def list_packages_bounded(run):
     """BOUNDED stand-in (nested loops over os.listdir results with suffix stripping): the children listed for a package root are exactly
-    the importable children (module files by importlib's suffixes, package directories) of that package directory in every root, plus
-    the already-loaded submodules; not counted as proved"""
+    the children importlib enumerates (pkgutil.iter_modules over the search locations of the package PathFinder finds for the name: module
+    files by importlib's suffixes, package directories), plus the already-loaded submodules; a directory or package of the same name in a
+    later root contributes nothing; not counted as proved"""
     import itertools
     import os
     import shutil
@@ -1026,21 +1027,29 @@ def list_packages_bounded(run):
         expect = {'mod': 'ma', 'pkg': 'pb', 'ext': 'ex'}
         names = sorted(kinds)
         n = 0
+        import pkgutil
         for r in range(len(names) + 1):
-            for combo in itertools.combinations(names, r):
+          for combo in itertools.combinations(names, r):
+            for second in ('plain-directory', 'package'):
                 top = tempfile.mkdtemp(prefix='supp-c07-')
                 try:
                     r1, r2 = os.path.join(top, 'r1'), os.path.join(top, 'r2')
                     for root in (r1, r2):
                         os.makedirs(os.path.join(root, 'pk'))
                     open(os.path.join(r1, 'pk', '__init__.py'), 'w').close()
+                    if second == 'package':
+                        # a package of the same name in a later root: its children are not importable
+                        open(os.path.join(r2, 'pk', '__init__.py'), 'w').close()
+                        open(os.path.join(r2, 'pk', 'only_in_the_later_root.py'), 'w').close()
                     for k in combo:
                         kinds[k](os.path.join(r1 if k != 'ext' else r2, 'pk'))
                     got = Project([r1, r2]).list_packages('pk')
-                    want = {expect[k] for k in combo if k in expect}
+                    # the oracle: what importlib enumerates in the package it finds for the name
+                    spec = importlib.machinery.PathFinder.find_spec('pk', [r1, r2])
+                    want = {m.name for m in pkgutil.iter_modules(list(spec.submodule_search_locations or ())) if m.name.isidentifier()}
                     n += 1
-                    prove('children-of-pk-with-%s' % ('+'.join(combo) or 'nothing'), got == want,
-                          clause='list_packages == importable children [%r vs %r]' % (sorted(got), sorted(want)), path=path)
+                    prove('children-of-pk-with-%s[%s in the later root]' % ('+'.join(combo) or 'nothing', second), got == want,
+                          clause='list_packages == the children importlib enumerates in the package it loads [%r vs %r]' % (sorted(got), sorted(want)), path=path)
                 finally:
                     shutil.rmtree(top, ignore_errors=True)
     core.explore(lambda: None, lambda p, out: go(p))
